@@ -542,8 +542,18 @@ func (e *env) runEnc(id, tier string) {
 			for _, ek := range []string{"", "good", "bad"} {
 				n++
 				dsn := dsnBase
-				if sp != "" || n%2 == 0 {
+				shown := sp
+				switch {
+				case sp != "":
 					dsn += "&encrypt=" + url.QueryEscape(sp)
+				case n%3 == 0:
+					dsn += "&encrypt=" // present, no value
+					shown = "(empty)"
+				case n%3 == 1:
+					dsn += "&encrypt" // a bare flag: present, no value
+					shown = "(empty)"
+				default:
+					shown = "-" // absent
 				}
 				if dk != "" || n%3 == 0 {
 					dsn += "&encrypt_key=" + url.QueryEscape(keyOf(dk, n))
@@ -555,9 +565,17 @@ func (e *env) runEnc(id, tier string) {
 				}
 				conn, err := store.Open(dsn)
 				os.Unsetenv("FSCACHE_ENCRYPT_KEY")
-				e.emit("S\tCFGM\tdsn\t%s\t%s\t%s\t%s", dash(sp), dash(dk), dash(ek), observe(n, conn, err))
+				e.emit("S\tCFGM\tdsn\t%s\t%s\t%s\t%s", shown, dash(dk), dash(ek), observe(n, conn, err))
 			}
 		}
+	}
+	// a query that url.ParseQuery rejects (a ";" in a pair, a bad escape): nothing of such a DSN may be guessed at —
+	// Query() drops the offending pair silently, and with it the request for encryption
+	for _, bad := range []string{"&encrypt=on;encrypt_key=" + url.QueryEscape(encKey), "&encrypt=aesgcm;&encrypt_key=" + url.QueryEscape(encKey),
+		"&encrypt=on%&encrypt_key=" + url.QueryEscape(encKey), "&encrypt=on%zz&encrypt_key=" + url.QueryEscape(encKey), "&encrypt=on&encrypt_key=" + url.QueryEscape(encKey) + ";x=1"} {
+		n++
+		conn, err := store.Open(dsnBase + bad)
+		e.emit("S\tCFGM\tdsnbad\t%s\t%s\t%s\t%s", "on", "good", "-", observe(n, conn, err))
 	}
 	for _, kc := range []string{"", "good", "bad"} {
 		for _, ek := range []string{"", "good"} { // the option never consults the environment
